@@ -16,7 +16,7 @@ pub fn property() -> Property {
     Property {
         id: "C05",
         level: "exploration",
-        rule: "Hostile byte streams are served by the scripted transport to the direct response parser and to the CONNECT-reply parser; every API (send, bytes, text, text_utf8, json, read loops, text_reader, write_to) is driven to its end plus three more reads, under the global monitors: panic capture (catch_unwind + hook), counting allocator (per-case peak heap <= 256 KiB + 4 x (bytes served + bytes delivered), largest single request recorded), fuel (reads at end-of-stream <= 10 000, bytes pulled from an endless construct before the call returned <= 2 x documented bound + 16 KiB, dials per send), per-case wall watchdog (inconclusive first, violation only when reproduced alone). Workloads: (1) ALL strings over {0,7,a,;,:,SP,CR,LF,x} up to length 5 (quick) / 7 (thorough) placed as the rest of the head, as a chunked body and as a CONNECT reply (exhaustive); (2) mutations (bit flips, splices, deletions, duplications, numeric blow-ups to 2^31/2^63/2^64/10^30, hex sizes ffffffffffffffff) of valid responses; (3) endless streams for each unbounded-looking construct; (4) x {whole, bytewise, random} segmentation. Non-trivial: the input is not a well-formed complete response or an endless construct was involved; distinct = hash(bytes served, placement, API plan).",
+        rule: "Hostile byte streams are served by the scripted transport to the direct response parser and to the CONNECT-reply parser; every API (send, bytes, text, text_utf8, json, read loops, text_reader, write_to) is driven to its end plus three more reads, under the global monitors: panic capture (catch_unwind + hook), counting allocator (per-case peak heap <= 256 KiB + 4 x (bytes served + bytes delivered), largest single request recorded), fuel (reads at end-of-stream <= 8 million (a spin loop, decided without a clock), bytes pulled from an endless construct before the call returned <= 2 x documented bound + 16 KiB, dials per send), per-case wall watchdog (inconclusive first, violation only when reproduced alone). Workloads: (1) ALL strings over {0,7,a,;,:,SP,CR,LF,x} up to length 5 (quick) / 7 (thorough) placed as the rest of the head, as a chunked body and as a CONNECT reply (exhaustive); (2) mutations (bit flips, splices, deletions, duplications, numeric blow-ups to 2^31/2^63/2^64/10^30, hex sizes ffffffffffffffff) of valid responses; (3) endless streams for each unbounded-looking construct; (4) x {whole, bytewise, random} segmentation. Non-trivial: the input is not a well-formed complete response or an endless construct was involved; distinct = hash(bytes served, placement, API plan).",
         assumptions: &[
             "a close-delimited body that really never ends is not a finite input: convenience readers are not driven on endless bodies",
             "heap bound is an engineering bound checked by a counting allocator, not a proof",
@@ -207,7 +207,7 @@ pub fn drive(ctx: &mut Ctx, h: Hostile) {
         spin |= t.spin;
     }
     if spin {
-        ctx.violation("spin-at-eof", format!("more than 10000 reads at end of stream; outcome={outcome}; {}", h.label));
+        ctx.violation("spin-at-eof", format!("more than 8 million reads at end of stream; outcome={outcome}; {}", h.label));
     }
     if ndials > 4 {
         ctx.violation("too-many-dials", format!("{ndials} dials for one send() with max_redirections=3; {}", h.label));
